@@ -808,7 +808,7 @@ def fam_big(cfg, rng):
     h.hash(1) if not h.regs[1]['p'] else None
     h.intra(0)
     h.hash(0)
-    h.emit('repeat h2 %s %d' % (h.val(), rng.choice([0, 1, 5, 33, 1000, 2 ** 20 + 3])))
+    h.emit('repeat h2 %s %d' % (h.val(), rng.choice([0, 1, 5, 33, 1000, 4100])))
     h.emit('hash h2')
     h.emit('len h2')
     return h
